@@ -597,7 +597,7 @@ def _reach(o: Any) -> list[Any]:
 
 
 def eval_family(case: dict, members: list[str], xblob: str | None,
-                want_keys: bool = True) -> dict:
+                want_keys: bool = True, want_nodes: bool = True) -> dict:
     """Build every member of the family on the real classes and record the
     whole verdict matrix plus the reflective export."""
     kind, ctx = case["kind"], case["ctx"]
@@ -643,9 +643,13 @@ def eval_family(case: dict, members: list[str], xblob: str | None,
                        for j in range(n)])
     ex = FamilyExporter()
     roots = [ex.node(o) for o in objs]
+    import hashlib
+    import json
+    sha = hashlib.sha256(json.dumps([ex.nodes, roots], sort_keys=True).encode()).hexdigest()
     rec: dict[str, Any] = {
         "fam": fam_id(kind, ctx), "kind": kind, "ctx": ctx, "names": members,
-        "nodes": ex.nodes, "roots": roots, "eq": eq, "ne": ne, "hash": hashes,
+        "export_sha": sha, "nodes": ex.nodes if want_nodes else None, "roots": roots,
+        "eq": eq, "ne": ne, "hash": hashes,
         "inset": inset, "indict": indict, "stale": stale,
         "hash_base_first": h_base,
         "base_cached": "_hash_value" in getattr(base, "__dict__", {}),
@@ -731,11 +735,13 @@ def h_pickles(cases: list[dict]) -> dict[str, str]:
 
 
 def h_families(cases: list[dict], members: dict[str, list[str]],
-               xblobs: dict[str, str], want_keys: bool) -> list[dict]:
+               xblobs: dict[str, str], want_keys: bool, want_nodes: bool = True
+               ) -> list[dict]:
     out = []
     for c in cases:
         fid = fam_id(c["kind"], c["ctx"])
-        out.append(eval_family(c, members[c["kind"]], xblobs.get(fid), want_keys))
+        out.append(eval_family(c, members[c["kind"]], xblobs.get(fid), want_keys,
+                               want_nodes))
     return out
 
 
@@ -874,3 +880,102 @@ def h_lc(bid: str, subject: str, events: list[dict]) -> list[dict]:
 
 
 HANDLERS["lc"] = h_lc
+
+
+# --------------------------------------------------------------------------
+# event traces of the real EqualityComparer (PtEqMemo / PtEqCheck rel "memo")
+
+def _ladder(n: int, style: str, shared: bool, leaf: str = "x", top_tag: bool = False
+            ) -> Any:
+    """A DAG of depth n in which every level uses the level below twice
+    (2^n paths, n + 1 nodes when shared)."""
+    import pytato as pt
+
+    def build(k: int) -> Any:
+        if k == 0:
+            return ph(leaf, (2, 2))
+        a = build(k - 1)
+        b = a if shared else build(k - 1)
+        kind = style if style != "mix" else ("add", "stack", "mm", "where")[k % 4]
+        if kind == "add":
+            return a + b
+        if kind == "stack":
+            return pt.stack([a, b])[0]
+        if kind == "mm":
+            return a @ b
+        return pt.where(pt.greater(a, 0), a, b)
+    r = build(n)
+    return r.tagged(foo()) if top_tag else r
+
+
+def memo_cases(tier: str) -> list[dict]:
+    out = []
+    for style in ("add", "stack", "mm", "mix"):
+        for n in ((3, 6, 12, 18) if tier == "thorough" else (3, 10)):
+            for other in ("same", "leaf", "top"):
+                out.append({"id": f"memo/{style}/{n}/shared/{other}", "style": style, "n": n,
+                            "shared": [True, True], "other": other})
+        for other in ("same", "leaf"):
+            out.append({"id": f"memo/{style}/4/tree-vs-dag/{other}", "style": style, "n": 4,
+                        "shared": [False, True], "other": other})
+            out.append({"id": f"memo/{style}/4/tree/{other}", "style": style, "n": 4,
+                        "shared": [False, False], "other": other})
+    return out
+
+
+def h_memo(cases: list[dict]) -> list[dict]:
+    import pytato.equality as E
+    orig = E.EqualityComparer
+    log: list[dict] = []
+    ncmp = [0]
+    posmap: dict[int, int] = {}
+
+    class Recorder(orig):          # type: ignore[misc, valid-type]
+        def __init__(self) -> None:
+            super().__init__()
+            ncmp[0] += 1
+            self._no = ncmp[0]
+
+        def rec(self, e1: Any, e2: Any) -> bool:
+            try:
+                a, b = posmap[id(e1)], posmap[id(e2)]
+            except KeyError:
+                raise MachineryError("the comparer visited an object outside the "
+                                     f"exported graphs: {type(e1).__name__}") from None
+            if e1 is e2:
+                log.append({"c": self._no, "ev": "same", "a": a, "b": b, "res": True})
+                return super().rec(e1, e2)
+            if e1.__class__ is not e2.__class__:
+                log.append({"c": self._no, "ev": "kind", "a": a, "b": b, "res": False})
+                return super().rec(e1, e2)
+            hit = (id(e1), id(e2)) in self._cache
+            if not hit:
+                log.append({"c": self._no, "ev": "enter", "a": a, "b": b, "res": False})
+            res = bool(super().rec(e1, e2))
+            log.append({"c": self._no, "ev": "hit" if hit else "ret", "a": a, "b": b,
+                        "res": res})
+            return res
+    out = []
+    for c in cases:
+        a = _ladder(c["n"], c["style"], c["shared"][0])
+        b = _ladder(c["n"], c["style"], c["shared"][1],
+                    leaf="y" if c["other"] == "leaf" else "x",
+                    top_tag=c["other"] == "top")
+        ex = FamilyExporter()
+        roots = [ex.node(a), ex.node(b)]
+        posmap.clear()
+        posmap.update(ex.pos)
+        log.clear()
+        ncmp[0] = 0
+        E.EqualityComparer = Recorder
+        try:
+            result = bool(a == b)
+        finally:
+            E.EqualityComparer = orig
+        out.append({"id": c["id"], "rel": "memo", "nodes": ex.nodes, "roots": roots,
+                    "evs": list(log), "result": result, "ncomparers": ncmp[0],
+                    "paths": 2 ** c["n"]})
+    return out
+
+
+HANDLERS["memo"] = h_memo
